@@ -1,5 +1,7 @@
 import AgModel.Proofs.PoolGlue
 import AgModel.Model.Votor
+import AgModel.Proofs.PoolRecover
+import AgModel.Proofs.BundleReplay
 /-!
 # C18 — Standstill recovery re-broadcasts a bundle sufficient to catch up, at any time
 
@@ -17,77 +19,14 @@ theorem recover_total (p : Pool) :
   unfold Pool.recover
   exact ⟨_, _, rfl⟩
 
-theorem mem_insertSorted (st x : SlotState) (l : List SlotState) : x ∈ insertSorted st l ↔ x = st ∨ x ∈ l := by
-  induction l with
-  | nil => simp [insertSorted]
-  | cons y ys ih =>
-    unfold insertSorted
-    split
-    · simp
-    · simp only [List.mem_cons, ih]
-      constructor
-      · intro h; rcases h with h | h | h
-        · exact Or.inr (Or.inl h)
-        · exact Or.inl h
-        · exact Or.inr (Or.inr h)
-      · intro h; rcases h with h | h | h
-        · exact Or.inr (Or.inl h)
-        · exact Or.inl h
-        · exact Or.inr (Or.inr h)
-
-theorem mem_sortSlots (x : SlotState) (l : List SlotState) : x ∈ sortSlots l ↔ x ∈ l := by
-  unfold sortSlots
-  induction l with
-  | nil => simp
-  | cons y ys ih => simp only [List.foldr_cons, mem_insertSorted, ih, List.mem_cons]
-
 /-- **Contents.** The bundle consists of the certificates proving the highest finalized slot (the
     fast-finalization certificate, or finalization + notarization), every certificate held for a later
     slot, and every own vote stored for a later slot — nothing else. -/
 theorem bundle_contents (p : Pool) (certs : List Cert) (votes : List Vote)
     (h : p.recover = [.standstill (p.fin.highest + 1) certs votes]) :
     (∀ c, c ∈ certs ↔ (c ∈ p.getFinalCerts p.fin.highest ∨ ∃ st ∈ p.slots, st.slot > p.fin.highest ∧ c ∈ st.certs)) ∧
-    (∀ v, v ∈ votes ↔ ∃ st ∈ p.slots, st.slot > p.fin.highest ∧ v ∈ st.ownVotes p.epoch) := by
-  unfold Pool.recover at h
-  simp only [List.cons.injEq, Event.standstill.injEq, and_true, true_and] at h
-  obtain ⟨hc, hv⟩ := h
-  subst hc; subst hv
-  constructor
-  · intro c
-    simp only [List.mem_append, List.mem_flatMap, mem_sortSlots, List.mem_filter, decide_eq_true_eq]
-    constructor
-    · intro h; rcases h with h | ⟨st, ⟨hm, hs⟩, hc⟩
-      · exact Or.inl h
-      · exact Or.inr ⟨st, hm, hs, hc⟩
-    · intro h; rcases h with h | ⟨st, hm, hs, hc⟩
-      · exact Or.inl h
-      · exact Or.inr ⟨st, ⟨hm, hs⟩, hc⟩
-  · intro v
-    simp only [List.mem_flatMap, mem_sortSlots, List.mem_filter, decide_eq_true_eq]
-    constructor
-    · intro ⟨st, ⟨hm, hs⟩, hc⟩; exact ⟨st, hm, hs, hc⟩
-    · intro ⟨st, hm, hs, hc⟩; exact ⟨st, ⟨hm, hs⟩, hc⟩
-
-/-- the certificates proving a slot are held certificates of that slot's state -/
-theorem getFinalCerts_held (p : Pool) (s : Nat) (c : Cert) (h : c ∈ p.getFinalCerts s) :
-    ∃ st ∈ p.slots, c ∈ st.certs := by
-  unfold Pool.getFinalCerts at h
-  split at h
-  · simp at h
-  · rename_i st hg
-    obtain ⟨hm, _⟩ := getSlot_mem p s st hg
-    refine ⟨st, hm, ?_⟩
-    rw [mem_certs]
-    split at h
-    · rename_i ff hff
-      simp at h; subst h; exact Or.inr (Or.inl hff)
-    · split at h
-      · rename_i f n hf hn
-        simp at h
-        rcases h with h | h
-        · subst h; exact Or.inl hf
-        · subst h; exact Or.inr (Or.inr (Or.inl hn))
-      · simp at h
+    (∀ v, v ∈ votes ↔ ∃ st ∈ p.slots, st.slot > p.fin.highest ∧ v ∈ st.ownVotes p.epoch) :=
+  recover_contents p certs votes h
 
 /-- **Valid.** In a pool whose slot states satisfy the pool invariant (`PoolOk`: preserved by every pool
     operation on validated inputs — `Proofs/PoolGlue.lean`), every certificate of the bundle is valid for
@@ -117,26 +56,8 @@ theorem bundle_valid_reachable (e : Epoch) (hpos : 0 < e.total) (ops : List Pool
 /-- the own votes of the bundle are votes stored (i.e. admitted, hence validated) for the node itself -/
 theorem bundle_votes_own (p : Pool) (certs : List Cert) (votes : List Vote)
     (h : p.recover = [.standstill (p.fin.highest + 1) certs votes]) :
-    ∀ v ∈ votes, v.signer = p.epoch.own ∧ v.slot > p.fin.highest := by
-  intro v hv
-  obtain ⟨st, _, hs, hvs⟩ := ((bundle_contents p certs votes h).2 v).mp hv
-  unfold SlotState.ownVotes at hvs
-  simp only [List.mem_append] at hvs
-  rcases hvs with (((hvs | hvs) | hvs) | hvs) | hvs
-  · split at hvs
-    · simp at hvs; subst hvs; exact ⟨rfl, hs⟩
-    · simp at hvs
-  · split at hvs
-    · simp at hvs; subst hvs; exact ⟨rfl, hs⟩
-    · simp at hvs
-  · simp only [List.mem_map] at hvs
-    obtain ⟨x, _, rfl⟩ := hvs; exact ⟨rfl, hs⟩
-  · split at hvs
-    · simp at hvs; subst hvs; exact ⟨rfl, hs⟩
-    · simp at hvs
-  · split at hvs
-    · simp at hvs; subst hvs; exact ⟨rfl, hs⟩
-    · simp at hvs
+    ∀ v ∈ votes, v.signer = p.epoch.own ∧ v.slot > p.fin.highest :=
+  recover_votes_own p certs votes h
 
 /-! non-vacuity: recovery at genesis, and after a fast finalization with later votes -/
 example : ({ epoch := { stakes := [1, 1, 1], own := 0 } } : Pool).recover = [.standstill 1 [] []] := by decide
@@ -160,6 +81,165 @@ theorem bundle_replay_far_witness :
     sender.fin.highest = 40000 ∧
       sender.recover = [.standstill 40001 [⟨.ff, 40000, 2, [0, 1, 2], [], 3⟩] []] ∧
       (poolRun { epoch := e } [.cert ⟨.ff, 40000, 2, [0, 1, 2], [], 3⟩]).1.fin.highest = 0 := by decide
+
+/-! ## The catch-up clause: a fresh pool fed only the bundle
+
+Sender: any pool reachable from the empty pool (`poolRun`) whose ghost log (`poolLog`: block registrations +
+`CertCreated` events, `Proofs/PoolWiring.lean`) is `Consistent` (C07/C08 premise: the finality inputs are `Safe`, no
+skip certificate for a finalized slot), recovery triggered after this — i.e. after *every* prefix of every such
+history.  Receiver: the empty pool of the same epoch, fed the bundle's certificates (`add_cert`) and own votes
+(`add_vote`) in **any order**, with repetitions, every certificate at least once.
+
+Further premises, each necessary (witness theorems below):
+* `hfar`  — the finalized slot is below `2·SLOTS_PER_EPOCH` (known finding D17: `bundle_replay_far_witness`);
+* `hown`  — the node's own stake is below the quorum threshold (so that its own votes alone create no certificate
+  at the receiver).  Without it the *parents* clause fails in the model when a received certificate carries the
+  node's own signature for a block it did not vote for (`bundle_replay_parents_needs_own_below_quorum`); for the
+  *finalized-slot* clause no counterexample is known — there the premise is an artefact of the proof (the receiver's
+  log is shown to be a sub-log of the sender's), see notes/C18.md;
+* `hnf` (parents only) — a notar-fallback certificate for a finalized slot (or slot 0) names the finalized block
+  (genesis): the bundle carries for the finalized slot only the certificates that prove it
+  (`bundle_replay_parents_needs_nf_agree`).
+-/
+
+/-- **`bundle_replay_finalized`.**  A node that starts from the empty state and receives only the bundle reaches
+    exactly the sender's highest finalized slot. -/
+theorem bundle_replay_finalized (e : Epoch) (ops : List PoolOp)
+    (hcons : Consistent (poolLog { epoch := e } ops))
+    (hfar : (poolRun { epoch := e } ops).1.fin.highest < 2 * Gen.SLOTS_PER_EPOCH)
+    (hown : e.isQuorum (e.stake e.own) = false)
+    (certs : List Cert) (votes : List Vote)
+    (hb : (poolRun { epoch := e } ops).1.recover =
+      [.standstill ((poolRun { epoch := e } ops).1.fin.highest + 1) certs votes])
+    (rops : List PoolOp)
+    (hfed : ∀ op ∈ rops, (∃ c ∈ certs, op = .cert c) ∨ (∃ v ∈ votes, op = .vote v))
+    (hall : ∀ c ∈ certs, PoolOp.cert c ∈ rops) :
+    (poolRun { epoch := e } rops).1.fin.highest = (poolRun { epoch := e } ops).1.fin.highest :=
+  (Replay.mk hcons hfar hown hb hfed hall).finalized
+
+/-- **`bundle_replay_parents`.**  … and for the first slot `w` of the leader window after the finalized slot its
+    `parents_ready(w)` has exactly the members of the sender's. -/
+theorem bundle_replay_parents (e : Epoch) (ops : List PoolOp)
+    (hcons : Consistent (poolLog { epoch := e } ops)) (hnf : NfAgree (poolLog { epoch := e } ops))
+    (hfar : (poolRun { epoch := e } ops).1.fin.highest < 2 * Gen.SLOTS_PER_EPOCH)
+    (hown : e.isQuorum (e.stake e.own) = false)
+    (certs : List Cert) (votes : List Vote)
+    (hb : (poolRun { epoch := e } ops).1.recover =
+      [.standstill ((poolRun { epoch := e } ops).1.fin.highest + 1) certs votes])
+    (rops : List PoolOp)
+    (hfed : ∀ op ∈ rops, (∃ c ∈ certs, op = .cert c) ∨ (∃ v ∈ votes, op = .vote v))
+    (hall : ∀ c ∈ certs, PoolOp.cert c ∈ rops) (b : Nat × Nat) :
+    b ∈ ParentReady.parentsReady (poolRun { epoch := e } rops).1.pr (nextWindow (poolRun { epoch := e } ops).1.fin.highest) ↔
+    b ∈ ParentReady.parentsReady (poolRun { epoch := e } ops).1.pr (nextWindow (poolRun { epoch := e } ops).1.fin.highest) :=
+  (Replay.mk hcons hfar hown hb hfed hall).parents hnf b
+
+/-- `nextWindow f` is the first slot of the leader window after `f` -/
+theorem nextWindow_is_next (f : Nat) :
+    ParentReady.isWindowStart (nextWindow f) = true ∧ f < nextWindow f ∧ nextWindow f ≤ f + ParentReady.W :=
+  ⟨(nextWindow_spec f).1, (nextWindow_spec f).2.1, (nextWindow_spec f).2.2.1⟩
+
+/-! ### non-vacuity and necessity of the premises (evaluated by the kernel) -/
+
+/-- the bundle of a pool, and the pool a fresh node reaches when fed `certs` then `votes` / `votes` then `certs` -/
+def bundleOf (p : Pool) : List Cert × List Vote :=
+  match p.recover with
+  | [.standstill _ cs vs] => (cs, vs)
+  | _ => ([], [])
+
+def replayCV (e : Epoch) (b : List Cert × List Vote) : Pool :=
+  (poolRun { epoch := e } (b.1.map PoolOp.cert ++ b.2.map PoolOp.vote)).1
+def replayVC (e : Epoch) (b : List Cert × List Vote) : Pool :=
+  (poolRun { epoch := e } (b.2.map PoolOp.vote ++ b.1.reverse.map PoolOp.cert)).1
+
+/-- **Non-vacuity**: the demo history of C07 (`demoPoolOps`: certificates, a vote-created skip certificate, blocks,
+    slow and fast finalization) extended by certificates and own votes for later slots satisfies every premise; the
+    bundle carries the fast-finalization certificate of slot 5, three later certificates and two own votes; both replay
+    orders reach slot 5 and the ready parent (5,3) for window start 8. -/
+def demoSender : List PoolOp :=
+  demoPoolOps ++ [.vote ⟨.notar, 9, 4, 0⟩, .cert (demoCert .notar 9 4), .vote ⟨.skip, 10, 0, 0⟩]
+
+example :
+    let p := (poolRun { epoch := demoEpoch } demoSender).1
+    Consistent (poolLog { epoch := demoEpoch } demoSender) ∧ NfAgreeC (poolLog { epoch := demoEpoch } demoSender) ∧
+    p.fin.highest = 5 ∧ demoEpoch.isQuorum (demoEpoch.stake demoEpoch.own) = false ∧
+    (bundleOf p).1.map (fun c => (c.kind, c.slot)) = [(.ff, 5), (.skip, 6), (.skip, 7), (.notar, 9)] ∧
+    (bundleOf p).2.length = 2 ∧ nextWindow p.fin.highest = 8 ∧
+    ParentReady.parentsReady p.pr 8 = [(5, 3)] ∧
+    (replayCV demoEpoch (bundleOf p)).fin.highest = 5 ∧ ParentReady.parentsReady (replayCV demoEpoch (bundleOf p)).pr 8 = [(5, 3)] ∧
+    (replayVC demoEpoch (bundleOf p)).fin.highest = 5 ∧ ParentReady.parentsReady (replayVC demoEpoch (bundleOf p)).pr 8 = [(5, 3)] := by
+  decide
+
+/-- … and the theorems, instantiated on this history (all premises discharged by evaluation) -/
+example :
+    (replayCV demoEpoch (bundleOf (poolRun { epoch := demoEpoch } demoSender).1)).fin.highest =
+      (poolRun { epoch := demoEpoch } demoSender).1.fin.highest ∧
+    ∀ b, b ∈ ParentReady.parentsReady (replayCV demoEpoch (bundleOf (poolRun { epoch := demoEpoch } demoSender).1)).pr
+          (nextWindow (poolRun { epoch := demoEpoch } demoSender).1.fin.highest) ↔
+        b ∈ ParentReady.parentsReady (poolRun { epoch := demoEpoch } demoSender).1.pr
+          (nextWindow (poolRun { epoch := demoEpoch } demoSender).1.fin.highest) := by
+  have hcons : Consistent (poolLog { epoch := demoEpoch } demoSender) := by decide
+  have hnf : NfAgree (poolLog { epoch := demoEpoch } demoSender) := (nfAgreeC_iff hcons.safe).mp (by decide)
+  have hb : (poolRun { epoch := demoEpoch } demoSender).1.recover =
+      [.standstill ((poolRun { epoch := demoEpoch } demoSender).1.fin.highest + 1)
+        (bundleOf (poolRun { epoch := demoEpoch } demoSender).1).1 (bundleOf (poolRun { epoch := demoEpoch } demoSender).1).2] := by
+    decide
+  have hfed : ∀ op ∈ (bundleOf (poolRun { epoch := demoEpoch } demoSender).1).1.map PoolOp.cert ++
+        (bundleOf (poolRun { epoch := demoEpoch } demoSender).1).2.map PoolOp.vote,
+      (∃ c ∈ (bundleOf (poolRun { epoch := demoEpoch } demoSender).1).1, op = .cert c) ∨
+      (∃ v ∈ (bundleOf (poolRun { epoch := demoEpoch } demoSender).1).2, op = .vote v) := by
+    intro op hop
+    rcases List.mem_append.mp hop with h | h
+    · obtain ⟨c, hc, rfl⟩ := List.mem_map.mp h; exact Or.inl ⟨c, hc, rfl⟩
+    · obtain ⟨v, hv, rfl⟩ := List.mem_map.mp h; exact Or.inr ⟨v, hv, rfl⟩
+  have hall : ∀ c ∈ (bundleOf (poolRun { epoch := demoEpoch } demoSender).1).1,
+      PoolOp.cert c ∈ (bundleOf (poolRun { epoch := demoEpoch } demoSender).1).1.map PoolOp.cert ++
+        (bundleOf (poolRun { epoch := demoEpoch } demoSender).1).2.map PoolOp.vote :=
+    fun c hc => List.mem_append_left _ (List.mem_map.mpr ⟨c, hc, rfl⟩)
+  exact ⟨bundle_replay_finalized demoEpoch demoSender hcons (by decide) (by decide) _ _ hb _ hfed hall,
+    fun b => bundle_replay_parents demoEpoch demoSender hcons hnf (by decide) (by decide) _ _ hb _ hfed hall b⟩
+
+/-- **`hown` is necessary for the parents clause** (in the model; signatures are symbolic): the node holds 60 % of the
+    stake, it received a notarization certificate for block (3,8) that carries its own signature, and voted for
+    (3,7).  The history is `Consistent` and `NfAgree`, nothing is finalized.  A receiver that gets the own vote
+    *before* the certificate creates its own notarization certificate for (3,7) and refuses the bundled one as a
+    duplicate: it never learns (3,8). -/
+theorem bundle_replay_parents_needs_own_below_quorum :
+    let e : Epoch := { stakes := [3, 1, 1], own := 0 }
+    let ops : List PoolOp := [.cert ⟨.notar, 3, 8, [0, 1], [], 4⟩, .vote ⟨.notar, 3, 7, 0⟩]
+    let p := (poolRun { epoch := e } ops).1
+    Consistent (poolLog { epoch := e } ops) ∧ NfAgreeC (poolLog { epoch := e } ops) ∧ p.fin.highest = 0 ∧
+    e.isQuorum (e.stake e.own) = true ∧
+    ParentReady.parentsReady p.pr 4 = [(3, 8), (3, 7)] ∧
+    ParentReady.parentsReady (replayCV e (bundleOf p)).pr 4 = [(3, 8), (3, 7)] ∧
+    ParentReady.parentsReady (replayVC e (bundleOf p)).pr 4 = [(3, 7)] := by
+  decide
+
+/-- **`hnf` is necessary**: slot 1 is fast-finalized with block (1,7) and the sender also holds a notar-fallback
+    certificate for (1,9); slots 2, 3 are skip-certified.  The bundle proves slot 1 with the fast-finalization
+    certificate only: the receiver does not learn the parent (1,9). -/
+theorem bundle_replay_parents_needs_nf_agree :
+    let e : Epoch := { stakes := [1, 1, 1, 1, 1], own := 0 }
+    let ops : List PoolOp := [.cert (demoCert .nf 1 9), .cert (demoCert .ff 1 7), .cert (demoCert .skip 2 0),
+      .cert (demoCert .skip 3 0)]
+    let p := (poolRun { epoch := e } ops).1
+    Consistent (poolLog { epoch := e } ops) ∧ ¬ NfAgreeC (poolLog { epoch := e } ops) ∧ p.fin.highest = 1 ∧
+    e.isQuorum (e.stake e.own) = false ∧
+    ParentReady.parentsReady p.pr 4 = [(1, 9), (1, 7)] ∧
+    ParentReady.parentsReady (replayCV e (bundleOf p)).pr 4 = [(1, 7)] := by
+  decide
+
+/-- **"no skip certificate for a finalized slot" is necessary**: block (2,9) is fast-finalized although slot 2 is
+    skip-certified; the sender still answers (1,7) for window start 4 (through the skip certificates of 2 and 3), the
+    bundle starts at slot 2. -/
+theorem bundle_replay_parents_needs_consistent :
+    let e : Epoch := { stakes := [1, 1, 1, 1, 1], own := 0 }
+    let ops : List PoolOp := [.cert (demoCert .notar 1 7), .cert (demoCert .skip 2 0), .cert (demoCert .ff 2 9),
+      .cert (demoCert .skip 3 0)]
+    let p := (poolRun { epoch := e } ops).1
+    ¬ Consistent (poolLog { epoch := e } ops) ∧ Finality.Safe (finOps (poolLog { epoch := e } ops)) ∧ p.fin.highest = 2 ∧
+    ParentReady.parentsReady p.pr 4 = [(2, 9), (1, 7)] ∧
+    ParentReady.parentsReady (replayCV e (bundleOf p)).pr 4 = [(2, 9)] := by
+  decide
 
 end AgModel.Pool
 
